@@ -34,6 +34,11 @@ structure DState where
   rollCfg : Logs.Settings := { maxSize := 1, maxCount := 1 }
   sec : Secrets.St := Secrets.St.init
 
+/-- the bounded maps as the C source declares them (kind and capacity from the generated facts) -/
+def driverCaps : Ebpf.Caps :=
+  { localKind := if Facts.localMapType = "BPF_MAP_TYPE_LRU_HASH" then .lru else .hash, localCap := Facts.localMapMaxEntries,
+    auditKind := if Facts.auditMapType = "BPF_MAP_TYPE_LRU_HASH" then .lru else .hash, auditCap := Facts.auditMapMaxEntries }
+
 def showRoll (r : Logs.Rolling) : String :=
   let c := match r.cur with | some v => toString v | none => "-"
   let a := if r.archives.isEmpty then "-" else ",".intercalate (r.archives.map toString)
@@ -331,13 +336,13 @@ def stepLine (st : DState) (line : String) : DState × String :=
   | "ebpf" :: "c4" :: ws =>
       match natsOf ws with
       | some [pt, ug, ip, port, proto] =>
-          let r := Ebpf.connect4 st.ebpf ⟨pt, ug⟩ ip port proto
+          let r := Ebpf.connect4B driverCaps st.ebpf ⟨pt, ug⟩ ip port proto
           ({ st with ebpf := r.1 }, s!"c4 1 {r.2.1} {r.2.2}")
       | _ => (st, "bad-op")
   | "ebpf" :: "tc" :: ws =>
       match natsOf ws with
       | some [pt, ug, fam, daddr, dport, lport] =>
-          ({ st with ebpf := Ebpf.tcpConnect st.ebpf ⟨pt, ug⟩ fam daddr dport lport }, "tc 0")
+          ({ st with ebpf := Ebpf.tcpConnectB driverCaps st.ebpf ⟨pt, ug⟩ fam daddr dport lport }, "tc 0")
       | _ => (st, "bad-op")
   | ["ebpf", "rmaudit", a, b] =>
       match a.toNat?, b.toNat? with
@@ -346,6 +351,18 @@ def stepLine (st : DState) (line : String) : DState × String :=
           ({ st with ebpf := { st.ebpf with audit := Ebpf.delete st.ebpf.audit (a, b) } }, r)
       | _, _ => (st, "bad-op")
   | ["ebpf", "dump"] => (st, showEbpf st.ebpf)
+  | ["ebpf", "pdump"] =>
+      -- the policy and the agent's process list, in the format the kernel-map dump of the harness uses
+      let pol := Text.sortBy (fun a b => lexLt a.1 b.1) st.ebpf.policy
+      let sk := Text.sortBy (fun a b => decide (a < b)) st.ebpf.skip.eraseDups
+      let f := fun (kv : List Nat × List Nat) => " [" ++ ",".intercalate (kv.1.map toString) ++ "->" ++ ",".intercalate (kv.2.map toString) ++ "]"
+      (st, "policy_map" ++ String.join (pol.map f) ++ " | skip_process_map" ++ String.join (sk.map fun p => s!" [{p}->{p}]"))
+  | ["ebpf", "ldump"] =>
+      let lo := Text.sortBy (fun a b => lexLt a.1 b.1)
+        (st.ebpf.localMap.map fun kv => ([kv.1 % 4294967296, kv.1 / 4294967296],
+          [kv.2.logonId, kv.2.processId, kv.2.isRoot, kv.2.destIp, kv.2.destPort, kv.2.protocol]))
+      let f := fun (kv : List Nat × List Nat) => " [" ++ ",".intercalate (kv.1.map toString) ++ "->" ++ ",".intercalate (kv.2.map toString) ++ "]"
+      (st, "local_map" ++ String.join (lo.map f))
   | ["ebpf", "enc", "policy", ip, port] =>
       match ip.toNat?, port.toNat? with
       | some ip, some port => (st, " ".intercalate ((Ebpf.rustPolicyEntry ip port).map toString))
